@@ -529,10 +529,9 @@ func runC02(r *Run) {
 
 			// last segment
 			ls := r.Fn("", "findParamLenForLastSegment")
-			idx := callsMatching(ls, false, nameIs("strings.IndexByte"))
-			okIdx := len(idx) == 1 && isConstInt(idx[0].Common.Args[1], '/')
-			if !okIdx {
-				r.bad("findParamLenForLastSegment:slash-search", r.fpos(ls), "no single strings.IndexByte(s, '/') call")
+			idx := byteSearchesIn(ls, '/')
+			if len(idx) != 1 {
+				r.bad("findParamLenForLastSegment:slash-search", r.fpos(ls), "no single search for '/' in the rest of the path")
 			} else {
 				cut := map[edge]bool{}
 				for _, br := range branchesIn(ls) {
@@ -542,33 +541,26 @@ func runC02(r *Run) {
 						}
 					}
 				}
-				for _, br := range ifsOnValue(ls, idx[0].Value()) {
-					if s, ok := br.eqIntSlot(-1, true); ok {
-						cut[edge{br.If.Block(), s}] = true
-					}
+				for _, e := range idx[0].notFound {
+					cut[e] = true
 				}
 				bad := ""
 				seen := 0
 				for b := range blocksReachable(ls.Blocks[0], cut, nil) {
 					if ret, ok := b.Instrs[len(b.Instrs)-1].(*ssa.Return); ok {
 						seen++
-						if retOperand(ret, 0) != idx[0].Value() {
+						if !idx[0].isPos(retOperand(ret, 0)) {
 							bad = r.pos(ret)
 						}
 					}
 				}
 				r.check(bad == "" && seen > 0 && len(cut) >= 2, "findParamLenForLastSegment:non-greedy-stops-at-slash", r.fpos(ls),
-					"non-greedy with a '/' present returns exactly the IndexByte result",
+					"non-greedy with a '/' present returns exactly the position of the first '/'",
 					"non-greedy last parameter may return something other than the position of the first '/' ("+bad+")")
 			}
 			// multi-byte compare part
 			fp := r.Fn("", "findParamLen")
-			var slashIdx []callSite
-			for _, c := range callsMatching(fp, false, nameIs("strings.IndexByte")) {
-				if isConstInt(c.Common.Args[1], '/') {
-					slashIdx = append(slashIdx, c)
-				}
-			}
+			slashIdx := byteSearchesIn(fp, '/')
 			if len(slashIdx) == 0 {
 				r.bad("findParamLen:slash-in-non-greedy", r.fpos(fp), "no search for '/' inside the candidate capture of a non-greedy parameter")
 			}
@@ -581,12 +573,10 @@ func runC02(r *Run) {
 						}
 					}
 				}
-				for _, br := range ifsOnValue(fp, c.Value()) {
-					if s, ok := br.eqIntSlot(-1, true); ok {
-						cut[edge{br.If.Block(), s}] = true
-					}
+				for _, e := range c.notFound {
+					cut[e] = true
 				}
-				_, hit := reach(pointAfter(c.Instr), func(in ssa.Instruction) bool {
+				_, hit := reach(pointAfter(c.call.Instr), func(in ssa.Instruction) bool {
 					ret, ok := in.(*ssa.Return)
 					if !ok {
 						return false
@@ -594,7 +584,7 @@ func runC02(r *Run) {
 					n, isC := constInt(asConst(retOperand(ret, 0)))
 					return !(isC && n == 0)
 				}, cut, nil)
-				r.check(hit == nil, "findParamLen:slash-in-non-greedy", r.pos(c.Instr),
+				r.check(hit == nil && len(c.notFound) > 0, "findParamLen:slash-in-non-greedy", r.pos(c.call.Instr),
 					"non-greedy capture containing '/' yields length 0 (no match)", "a non-greedy capture containing '/' can yield a non-zero length")
 			}
 			// every search for the delimiter that ends a parameter — whatever its length — is followed by that slash search
@@ -653,7 +643,7 @@ func runC02(r *Run) {
 					return ok && retOperand(ret, 0) == dv
 				}, cutG, func(in ssa.Instruction) bool {
 					for _, sc := range slashIdx {
-						if in == sc.Instr {
+						if in == sc.call.Instr {
 							return true
 						}
 					}
@@ -735,4 +725,83 @@ func armFacts(f *ssa.Function, arm edge) (canReject bool, maxIdx int64) {
 		}
 	}
 	return
+}
+
+// byteSearch: one search for a single byte in a string, however it is written — strings.IndexByte / Index with the
+// result compared to -1 (or tested for its sign), strings.Contains / ContainsRune / ContainsAny (a boolean), or
+// strings.Cut (found flag, position = len(before)).
+type byteSearch struct {
+	call     callSite
+	notFound []edge                  // edges taken when the byte is absent
+	isPos    func(v ssa.Value) bool // v is the position of the first occurrence
+}
+
+func byteSearchesIn(f *ssa.Function, ch byte) []byteSearch {
+	var out []byteSearch
+	isNeedle := func(v ssa.Value) bool {
+		if isConstInt(v, int64(ch)) {
+			return true
+		}
+		str, ok := constString(asConst(v))
+		return ok && str == string(ch)
+	}
+	for _, c := range callsIn(f, false) {
+		if len(c.Common.Args) != 2 || !isNeedle(c.Common.Args[1]) {
+			continue
+		}
+		c := c
+		bs := byteSearch{call: c}
+		switch c.Name {
+		case "strings.IndexByte", "strings.Index", "strings.IndexRune", "bytes.IndexByte":
+			for _, br := range ifsOnValue(f, c.Value()) {
+				if sl, ok := br.eqIntSlot(-1, true); ok {
+					bs.notFound = append(bs.notFound, edge{br.If.Block(), sl})
+					continue
+				}
+				n, isC := constInt(br.Info.Const)
+				if !isC {
+					continue
+				}
+				switch {
+				case n == 0 && br.Info.Op == token.LSS, n == -1 && br.Info.Op == token.LEQ:
+					bs.notFound = append(bs.notFound, edge{br.If.Block(), br.slotWhenRel(true)})
+				case n == 0 && br.Info.Op == token.GEQ, n == -1 && br.Info.Op == token.GTR:
+					bs.notFound = append(bs.notFound, edge{br.If.Block(), br.slotWhenRel(false)})
+				}
+			}
+			bs.isPos = func(v ssa.Value) bool { return v == c.Value() }
+		case "strings.Contains", "strings.ContainsRune", "strings.ContainsAny":
+			for _, br := range ifsOnValue(f, c.Value()) {
+				if sl, ok := br.truthSlot(false); ok {
+					bs.notFound = append(bs.notFound, edge{br.If.Block(), sl})
+				}
+			}
+			bs.isPos = func(ssa.Value) bool { return false }
+		case "strings.Cut":
+			var before ssa.Value
+			if c.Value() != nil && c.Value().Referrers() != nil {
+				for _, ref := range *c.Value().Referrers() {
+					ex, ok := ref.(*ssa.Extract)
+					if !ok {
+						continue
+					}
+					switch ex.Index {
+					case 0:
+						before = ex
+					case 2:
+						for _, br := range ifsOnValue(f, ex) {
+							if sl, ok := br.truthSlot(false); ok {
+								bs.notFound = append(bs.notFound, edge{br.If.Block(), sl})
+							}
+						}
+					}
+				}
+			}
+			bs.isPos = func(v ssa.Value) bool { return before != nil && isLenOf(v, before) }
+		default:
+			continue
+		}
+		out = append(out, bs)
+	}
+	return out
 }
